@@ -149,7 +149,8 @@ def kwargs_streams(ctx):
         cases.append(dict(cfg=cfg, n=n, tail=None, table=c01.rand_table(rng, n, zoo=False), fkind=rng.choice(['module', 'lambda', 'closure']),
                           kwargs=rng.choice(kwsets), schedule=None, demand=['N*'], label='kwargs'))
     for c, r, m in c01.execute(cases):
-        c01.judge(ctx, c, r, m)
+        with ctx.guard(c):
+            c01.judge(ctx, c, r, m)
         ctx.count('kwargs_streams')
 
 
@@ -164,7 +165,8 @@ def replay(ctx, data):
         element_cases(ctx)
     else:
         for c, r, m in c01.execute([case], workers=1):
-            c01.judge(ctx, c, r, m)
+            with ctx.guard(c):
+                c01.judge(ctx, c, r, m)
 
 
 if __name__ == '__main__':
